@@ -879,6 +879,8 @@ def oracle(sim: Sim, plan: dict) -> list[dict]:
     regs: dict[str, str] = {}
     reg_count: dict[str, int] = {}
     raised: dict[str, list] = {}
+    reg_seq: dict[str, int] = {}
+    svc_owners = {r[5]["exp_parent"] for r in tr if r[4] == "task_ctx"}
     for r in tr:
         seq, _step, _t, _task, kind, d = r
         if kind == "reg":
@@ -886,6 +888,7 @@ def oracle(sim: Sim, plan: dict) -> list[dict]:
             stacks.setdefault(c, []).append(d["cb"])
             regs[d["cb"]] = c
             reg_count[d["cb"]] = reg_count.get(d["cb"], 0) + 1
+            reg_seq[d["cb"]] = seq
             ev = ctx_ev.get(c, {})
             if "ctx_exit" in ev and ev["ctx_exit"][0] < seq:
                 v("C13.effect", "reg_after_exit", f"callback {d['cb']} registered on {c} after it was left")
@@ -974,6 +977,14 @@ def oracle(sim: Sim, plan: dict) -> list[dict]:
                     "missing" if ns < want_n else ("unfinished" if ne < ns else "repeated"),
                     f"callback {cb} of {c} (registered {want_n}x): started {ns}x, finished {ne}x by the time the context was left",
                 )
+                if ns < want_n and "body_end" in ev and reg_seq.get(cb, 0) > ev["body_end"][0]:
+                    # registering during teardown is allowed (C13) - and "allowed" means it
+                    # takes effect: the callback runs before the context has finished closing
+                    v(
+                        "C13.effect",
+                        "registered_in_teardown_dropped",
+                        f"callback {cb} was accepted by {c} while it was tearing down but never ran",
+                    )
         xd = ev["ctx_exit"][5]
         if xd.get("closed") is not True:
             v("C01.closed", "after_exit", f"ctx {c}.closed is {xd.get('closed')} after the block was left")
@@ -995,6 +1006,25 @@ def oracle(sim: Sim, plan: dict) -> list[dict]:
             or "cancel" in leaves(observed)
             or "cancel" in leaves({"g": R})
         )
+        if (
+            cancelled
+            and ev["ctx_new"][5]["parent"] is not None
+            and be["how"] in ("return", "raise")
+            and "cancel" not in leaves(be["exc"])
+            and "cancel" not in leaves({"g": R})
+            and "cancel" in leaves(observed)
+            and c not in svc_owners
+        ):
+            # Leaving a non-root context awaits nothing but its teardown callbacks.  When the
+            # block itself was not interrupted and no callback was, a cancellation that is
+            # pending (delivered while a shielded or synchronous callback ran) has no place
+            # to surface inside __aexit__: the caller must see the block's own outcome and
+            # meet the cancellation at *its* next checkpoint.
+            v(
+                "C01.outcome",
+                "cancel_injected",
+                f"ctx {c}: block ended with {be['exc']}, no teardown callback was interrupted, yet the caller observed {observed}",
+            )
         if cancelled:
             allowed = set(map(_h, leaves({"g": R}))) | set(map(_h, leaves(be["exc"]))) | {"cancel"}
             extra = [x for x in leaves(observed) if _h(x) not in allowed]
@@ -1350,10 +1380,18 @@ def gen_c12(g: G) -> dict:
                     b["via"] = f"x{g.nctx}"
                 if rng.random() < 0.25 and g.ntask < 8:
                     g.ntask += 1
-                    b["body"].insert(
-                        rng.randint(0, len(b["body"])),
-                        ["bg", {"name": f"t{g.ntask}", "body": [rpause(rng, 0.1), rpause(rng, 0.1), rpause(rng, 0.1)]}],
-                    )
+                    bgbody: list = [rpause(rng, 0.1), rpause(rng, 0.1), rpause(rng, 0.1)]
+                    if rng.random() < 0.5 and g.nctx < 10:
+                        # the outliving task creates a context of its own, often only after
+                        # the context it was spawned in has been left and closed: that
+                        # (closed) context is still current in the task, hence the parent
+                        g.nctx += 1
+                        bgbody += [
+                            rpause(rng),
+                            ["child", {"id": f"x{g.nctx}", "parent": "implicit", "body": [rpause(rng, 0.3)], "end": {"how": "return"}, "catch": True}],
+                            rpause(rng, 0.3),
+                        ]
+                    b["body"].insert(rng.randint(0, len(b["body"])), ["bg", {"name": f"t{g.ntask}", "body": bgbody}])
                     use_bg[0] = True
                 out.append(["child", b])
             elif r < 0.8 and depth < 4 and g.ntask < 8:
